@@ -1,8 +1,10 @@
 package c11
 
 import (
+	"encoding/json"
 	"fmt"
 	"math/rand/v2"
+	"sort"
 	"time"
 
 	"github.com/dadrus/heimdall/internal/config"
@@ -64,6 +66,50 @@ func (d detConfig) steps(e *env) []mstep { return d.mk(e) }
 
 const longTTL = "1h"
 
+// publicIssuer is an issuer name differing from the one announced by the metadata document (an IdP which heimdall reaches
+// through an internal address while its tokens carry the public name).
+const publicIssuer = "https://idp.public.example"
+
+// metadataIssuer is the issuer announced by (and matching the URL of) the metadata document /doc/idp-a/.well-known/...
+func (e *env) metadataIssuer() string { return e.srv.URL + "/doc/idp-a" }
+
+func (e *env) metadataURL() string {
+	return e.srv.URL + "/doc/idp-a/.well-known/oauth-authorization-server"
+}
+
+// numericExpressions look at numbers, lists and nested objects of the remote system's answer, with integral and with
+// fractional literals (which one is evaluable depends on how the answer was decoded; a pair whose expression is not evaluable on
+// a fresh evaluation is trivial).
+var numericExpressions = []string{
+	"Payload.req.level >= 2.0",
+	"Payload.req.level >= 2",
+	"Payload.req.level * 2.0 >= 4.0",
+	"Payload.req.level * 2 >= 4",
+	"Payload.req.level + Payload.stats.limits.window.burst > 3.0 && Payload.stats.big > 0.0",
+	"Payload.req.level + Payload.stats.limits.window.sec > 62 && Payload.stats.big > 0",
+}
+
+var structuredExpressions = []string{
+	"size(Payload.req.tags) == 2 && Payload.req.tags[1] > Payload.req.tags[0] && Payload.req.tags[0] == Payload.req.level",
+	"Payload.req.tags.exists(t, t == Payload.req.level) && Payload.req.n.q > 2.0 && Payload.req.n.list[1].k == 7.0",
+	"Payload.req.tags.exists(t, t == Payload.req.level) && Payload.req.n.q > 2.0 && Payload.req.n.list[1].k == 7",
+	"Payload.stats.items[2].k == Payload.stats.count + 1.0 && Payload.req.level >= 2.0",
+	"Payload.stats.items[2].k == Payload.stats.count + 1 && Payload.req.level >= 2",
+}
+
+// numPayload renders numbers, a list and nested objects from the subject; the test servers send the decoded payload back.
+const numPayload = `{"level": {{ .Subject.Attributes.level }}, "tags": [{{ .Subject.Attributes.level }}, 9], "n": {"q": 2.5, "big": 1234567890123456789, "list": ["x", {"k": 7}]}}`
+
+// storeLabels returns the labels of the signer key stores in a fixed order.
+func (e *env) storeLabels() []string {
+	out := make([]string, 0, len(e.stores))
+	for l := range e.stores {
+		out = append(out, l)
+	}
+	sort.Strings(out)
+	return out
+}
+
 func (e *env) prototypes(c *config.Configuration) {
 	S := e.srv.URL
 	p := c.Prototypes
@@ -80,6 +126,10 @@ func (e *env) prototypes(c *config.Configuration) {
 	}
 	addFin := func(id, typ string, cfg map[string]any) { p.Finalizers = append(p.Finalizers, mech(id, typ, cfg)) }
 
+	md, _ := json.Marshal(map[string]any{"issuer": e.metadataIssuer(), "introspection_endpoint": S + "/introspect", "jwks_uri": S + "/jwks/idp-a"})
+	e.srv.RegisterDoc("idp-a/.well-known/oauth-authorization-server", md)
+	stores := e.storeLabels()
+
 	// ---- (1) determinism: random configurations -------------------------------------------------
 	rng := e.r.Stream("det-configs")
 	n := e.r.Pick(8, 100)
@@ -93,6 +143,8 @@ func (e *env) prototypes(c *config.Configuration) {
 		id := fmt.Sprintf("det-ra-%d", i)
 		cfg := map[string]any{"endpoint": map[string]any{"url": S + "/authz", "headers": randHeaders(rng, nh)}, "values": randValues(rng, nv),
 			"payload": `{"s": {{ quote .Subject.ID }} }`, "cache_ttl": longTTL,
+			// the answer contains numbers, nested objects and lists, which the expressions calculate with
+			"expressions": []any{map[string]any{"expression": "Payload.stats.count >= 0.0 && Payload.stats.limits.window.sec == 60.0 && Payload.stats.items[3][1] * 2.0 == 5.0"}},
 			// header names are case-insensitive: every second configuration spells the forwarded name the yaml way
 			"forward_response_headers_to_upstream": []string{[]string{"X-Authz-Echo", "x-authz-echo", "X-AUTHZ-echo"}[i%3]}}
 		addAuthz(id, cfg)
@@ -123,6 +175,23 @@ func (e *env) prototypes(c *config.Configuration) {
 		st4 := mstep{Kind: "authn", Proto: id, Step: ck.Step{Req: ck.Req{Headers: map[string]string{"Authorization": "Bearer " + cred}}}}
 		e.det = append(e.det, detConfig{"oauth2_introspection", cfg, func(*env) []mstep { return []mstep{st4} }})
 
+		// endpoint discovered through the metadata document; trusted issuers from the metadata / configured (differing from it)
+		id = fmt.Sprintf("det-im-%d", i)
+		cfg = map[string]any{"metadata_endpoint": map[string]any{"url": e.metadataURL(), "headers": randHeaders(rng, nh)}, "subject": map[string]any{"id": "sub"}, "cache_ttl": longTTL}
+		tokIss := e.metadataIssuer()
+		switch i % 3 {
+		case 1:
+			cfg["assertions"] = map[string]any{"issuers": []string{publicIssuer}}
+			tokIss = publicIssuer
+		case 2:
+			cfg["assertions"] = map[string]any{"issuers": []string{e.metadataIssuer(), publicIssuer}}
+			tokIss = publicIssuer
+		}
+		addAuthn(id, "oauth2_introspection", cfg)
+		credIss := ck.Opaque{Sub: sub.ID, Iss: tokIss, Nonce: rstr(rng, 6)}.Token()
+		st4m := mstep{Kind: "authn", Proto: id, Step: ck.Step{Req: ck.Req{Headers: map[string]string{"Authorization": "Bearer " + credIss}}}}
+		e.det = append(e.det, detConfig{"oauth2_introspection_metadata", cfg, func(*env) []mstep { return []mstep{st4m} }})
+
 		id = fmt.Sprintf("det-jw-%d", i)
 		iss := fmt.Sprintf("det-iss-%d", i)
 		cfg = map[string]any{"jwks_endpoint": map[string]any{"url": S + "/jwks/" + iss, "headers": randHeaders(rng, nh)},
@@ -141,7 +210,7 @@ func (e *env) prototypes(c *config.Configuration) {
 		}})
 
 		id = fmt.Sprintf("det-jf-%d", i)
-		cfg = map[string]any{"signer": map[string]any{"key_store": map[string]any{"path": e.signer}}, "ttl": "10m",
+		cfg = map[string]any{"signer": map[string]any{"key_store": map[string]any{"path": e.stores[stores[i%len(stores)]]}}, "ttl": "10m",
 			"claims": `{"who": {{ quote .Subject.ID }}, "a0": {{ quote .Subject.Attributes.a0 }} }`}
 		addFin(id, "jwt", cfg)
 		st5 := mstep{Kind: "fin", Proto: id, Step: ck.Step{Subject: sub, Outputs: outputs}}
@@ -288,12 +357,54 @@ func (e *env) prototypes(c *config.Configuration) {
 		"claims": `{"aud": "upstream"}`})
 	addCtx("hx-url", map[string]any{"endpoint": map[string]any{"url": S + "/ctx?cc=max-age%3D600&who={{ .Subject.ID | urlenc }}", "method": "GET",
 		"http_cache": map[string]any{"enabled": true}}, "cache_ttl": "0s"})
+
+	// answers with numbers, lists and nested objects (announced as JSON and as YAML), which expressions and later steps look at
+	for _, f := range [][2]string{{"json", ""}, {"yaml", "?ct=application%2Fyaml"}} {
+		addAuthz("ra-num-"+f[0], map[string]any{"endpoint": map[string]any{"url": S + "/authz" + f[1]}, "payload": numPayload, "cache_ttl": longTTL})
+		addCtx("cx-num-"+f[0], map[string]any{"endpoint": map[string]any{"url": S + "/ctx" + f[1]}, "payload": numPayload, "cache_ttl": longTTL})
+	}
+
+	// introspection / jwt authenticators which discover their endpoints through a metadata document; the configured
+	// trusted issuers are absent (metadata issuer applies), equal to, different from, or a superset of the metadata issuer
+	for _, x := range []struct {
+		id      string
+		issuers []string
+	}{{"md", nil}, {"md-same", []string{e.metadataIssuer()}}, {"md-pub", []string{publicIssuer}}, {"md-both", []string{e.metadataIssuer(), publicIssuer}}} {
+		in := map[string]any{"metadata_endpoint": map[string]any{"url": e.metadataURL()}, "subject": map[string]any{"id": "sub"}, "cache_ttl": longTTL}
+		jw := map[string]any{"metadata_endpoint": map[string]any{"url": e.metadataURL()}, "cache_ttl": longTTL}
+		if x.issuers != nil {
+			in["assertions"] = map[string]any{"issuers": x.issuers}
+			jw["assertions"] = map[string]any{"issuers": x.issuers}
+		}
+		addAuthn("in-"+x.id, "oauth2_introspection", in)
+		addAuthn("jw-"+x.id, "jwt", jw)
+	}
+
+	// jwt finalizers whose signers differ in the key store only: same key material under different key ids, different
+	// material under the same key id, one of several keys of a store selected by key_id, another signer name
+	jfKS := func(id string, signer map[string]any) {
+		addFin(id, "jwt", map[string]any{"signer": signer, "ttl": "10m", "claims": `{"grp": {{ quote .Subject.Attributes.role }} }`})
+	}
+	for _, l := range stores {
+		jfKS("jf-ks-"+l, map[string]any{"key_store": map[string]any{"path": e.stores[l]}})
+		if l == "a-k1-b-k2" || l == "b-k1-a-k2" {
+			for _, kid := range []string{"k1", "k2"} {
+				jfKS("jf-ks-"+l+"-"+kid, map[string]any{"key_store": map[string]any{"path": e.stores[l]}, "key_id": kid})
+			}
+		}
+	}
+	jfKS("jf-ks-a-as-k1-named", map[string]any{"key_store": map[string]any{"path": e.stores["a-as-k1"]}, "name": "other-signer"})
 }
 
 // ---------------------------------------------------------------------------------------------
 
 func sub(id, role string) *ck.SubjectSpec {
 	return &ck.SubjectSpec{ID: id, Attributes: map[string]any{"role": role, "a0": "x"}}
+}
+
+// subL is a subject with a numeric attribute.
+func subL(id, role string, level int) *ck.SubjectSpec {
+	return &ck.SubjectSpec{ID: id, Attributes: map[string]any{"role": role, "a0": "x", "level": level}}
 }
 
 func hdr(kv ...string) map[string]string {
@@ -352,6 +463,25 @@ func (e *env) pairs() {
 		add("remote_authorizer", "forwarded-response-headers-payload", shift,
 			ra(raStep(sub(u1, r1), t1), map[string]any{"forward_response_headers_to_upstream": []string{"X-Authz-Echo", "X-Authz-Other"}, "payload": `{"p":"` + x + `"}`}),
 			ra(raStep(sub(u1, r1), t1), map[string]any{"forward_response_headers_to_upstream": []string{"X-Authz-Echo"}, "payload": `,X-Authz-Other{"p":"` + x + `"}`}))
+
+		// numbers, lists and nested objects of the answer in expressions: the subject's level decides (A: 3, B: 1), or the
+		// rule level expression does (same answer, other threshold); outputs are compared including the kinds of their values
+		for _, f := range []string{"json", "yaml"} {
+			num := func(s *ck.SubjectSpec, expr string) mstep {
+				return raP("ra-num-"+f, ck.Step{Subject: s}, map[string]any{"expressions": []any{map[string]any{"expression": expr}}})
+			}
+			for _, ex := range numericExpressions {
+				add("remote_authorizer", "response-number-in-expression:"+f, one, num(subL(u1, r1, 3), ex), num(subL(u1, r1, 1), ex))
+			}
+			for _, ex := range structuredExpressions {
+				add("remote_authorizer", "response-list-and-object-in-expression:"+f, one, num(subL(u1, r1, 3), ex), num(subL(u1, r1, 1), ex))
+			}
+			add("remote_authorizer", "rule-level-numeric-expression:"+f, one, num(subL(u1, r1, 3), "Payload.req.level >= 2.0"), num(subL(u1, r1, 3), "Payload.req.level >= 5.0"))
+			add("remote_authorizer", "rule-level-numeric-expression:"+f, one, num(subL(u1, r1, 3), "Payload.req.level >= 2"), num(subL(u1, r1, 3), "Payload.req.level >= 5"))
+			add("remote_authorizer", "subject-numeric-attribute:"+f, one, raP("ra-num-"+f, ck.Step{Subject: subL(u1, r1, 3)}, nil), raP("ra-num-"+f, ck.Step{Subject: subL(u1, r1, 4)}, nil))
+			add("generic_contextualizer", "subject-numeric-attribute:"+f, one, mstep{Kind: "ctx", Proto: "cx-num-" + f, Step: ck.Step{Subject: subL(u1, r1, 3)}},
+				mstep{Kind: "ctx", Proto: "cx-num-" + f, Step: ck.Step{Subject: subL(u1, r1, 4)}})
+		}
 
 		// ---- generic contextualizer
 		cxStep := func(s *ck.SubjectSpec, tenant, trk string) ck.Step {
@@ -452,6 +582,29 @@ func (e *env) pairs() {
 		add("oauth2_introspection", "other-prototype-assertions", one, in("in-main", tokRead, nil), in("in-strict", tokRead, nil))
 		add("oauth2_introspection", "other-prototype-assertions", one, in("in-main", tokRead, nil), in("in-aud", tokRead, nil))
 
+		// endpoint discovered through metadata: tokens of the metadata issuer, of the public issuer and of a third one, for
+		// prototypes trusting the metadata issuer only (by default / explicitly), the public one only, or both; rule level issuers
+		mi := e.metadataIssuer()
+		tokBy := map[string]string{}
+		for _, is := range []string{mi, publicIssuer, "https://third.example"} {
+			tokBy[is] = ck.Opaque{Sub: u1, Scope: "read", Iss: is, Nonce: x}.Token()
+		}
+		for _, pr := range []string{"in-md", "in-md-same", "in-md-pub", "in-md-both"} {
+			add("oauth2_introspection", "token-issuer-with-metadata", one, in(pr, tokBy[mi], nil), in(pr, tokBy[publicIssuer], nil))
+			add("oauth2_introspection", "token-issuer-with-metadata", one, in(pr, tokBy[publicIssuer], nil), in(pr, tokBy["https://third.example"], nil))
+			for _, is := range []string{mi, publicIssuer} {
+				add("oauth2_introspection", "rule-level-issuers-with-metadata", one, in(pr, tokBy[is], nil),
+					in(pr, tokBy[is], map[string]any{"assertions": map[string]any{"issuers": []string{publicIssuer}}}))
+				add("oauth2_introspection", "rule-level-issuers-with-metadata", one, in(pr, tokBy[is], nil),
+					in(pr, tokBy[is], map[string]any{"assertions": map[string]any{"issuers": []string{mi}}}))
+			}
+		}
+		for _, is := range []string{mi, publicIssuer} {
+			add("oauth2_introspection", "other-prototype-issuers-with-metadata", one, in("in-md", tokBy[is], nil), in("in-md-pub", tokBy[is], nil))
+			add("oauth2_introspection", "other-prototype-issuers-with-metadata", one, in("in-md-same", tokBy[is], nil), in("in-md-both", tokBy[is], nil))
+			add("oauth2_introspection", "other-prototype-issuers-with-metadata", one, in("in-md-pub", tokBy[is], nil), in("in-md-both", tokBy[is], nil))
+		}
+
 		// ---- jwt authenticator (registers keys as a side effect; JWKS documents are static per issuer)
 		e.jwtPairs(add, u1, u2, x, i)
 
@@ -472,6 +625,19 @@ func (e *env) pairs() {
 			add("jwt_finalizer", "subject-id-unused-by-templates", one, jfP(p, sub(u1, r1)), jfP(p, sub(u2, r1)))
 		}
 		add("jwt_finalizer", "subject-id-unused-by-templates", one, jf(sub(u1, r1), o1, map[string]any{"claims": `{"c": "` + x + `"}`}), jf(sub(u2, r1), o1, map[string]any{"claims": `{"c": "` + x + `"}`}))
+
+		// signers which differ in the key store only (the issued token names the key id, verifiers look the key up by it)
+		ks := func(l string) mstep { return jfP("jf-ks-"+l, sub(u1, r1)) }
+		add("jwt_finalizer", "signer-key-id-same-material", one, ks("a-as-k1"), ks("a-as-k2"))
+		add("jwt_finalizer", "signer-key-id-same-material", one, ks("b-as-k2"), ks("b-as-k1"))
+		add("jwt_finalizer", "signer-key-id-same-material", one, ks("a-k1-b-k2-k1"), ks("b-k1-a-k2-k2"))
+		add("jwt_finalizer", "signer-key-id-same-material", one, ks("a-k1-b-k2"), ks("a-as-k2"))
+		add("jwt_finalizer", "signer-material-same-key-id", one, ks("a-as-k1"), ks("b-as-k1"))
+		add("jwt_finalizer", "signer-material-same-key-id", one, ks("a-k1-b-k2-k1"), ks("b-k1-a-k2-k1"))
+		add("jwt_finalizer", "signer-material-same-key-id", one, ks("a-k1-b-k2"), ks("b-k1-a-k2"))
+		add("jwt_finalizer", "signer-selected-key-of-store", one, ks("a-k1-b-k2-k1"), ks("a-k1-b-k2-k2"))
+		add("jwt_finalizer", "signer-selected-key-of-store", one, ks("b-k1-a-k2"), ks("b-k1-a-k2-k2"))
+		add("jwt_finalizer", "signer-name", one, ks("a-as-k1"), ks("a-as-k1-named"))
 
 		// ---- client credentials (finalizer and endpoint auth strategy)
 		cc := func(proto string, ov map[string]any) mstep {
@@ -519,9 +685,28 @@ func (e *env) jwtPairs(add func(mechanism, component, class string, a, b mstep),
 		e.srv.RegisterJWKS("iss-two", ck.JWKS(k1b))
 		e.srv.RegisterJWKS("ab", ck.JWKS(kc))
 		e.srv.RegisterJWKS("a", ck.JWKS(kbc))
-		e.jwtKeys = map[string]*ck.SigningKey{"k1": k1, "k2": k2, "k1b": k1b, "c": kc, "bc": kbc}
+		kmd, _ := e.pki.NewKey("md1", nil)
+		e.srv.RegisterJWKS("idp-a", ck.JWKS(kmd))
+		e.jwtKeys = map[string]*ck.SigningKey{"k1": k1, "k2": k2, "k1b": k1b, "c": kc, "bc": kbc, "md1": kmd}
 	}
 	k := e.jwtKeys
+	// keys discovered through the metadata document: issuers trusted by default (metadata), explicitly, on rule level
+	mi := e.metadataIssuer()
+	md := func(proto, iss string, ov map[string]any) mstep {
+		m := mk(iss, "md1", u1, k["md1"])
+		m.Proto, m.Override = proto, ov
+		return m
+	}
+	for _, pr := range []string{"jw-md", "jw-md-same", "jw-md-pub", "jw-md-both"} {
+		add("jwt_authenticator", "token-issuer-with-metadata", "one-component", md(pr, mi, nil), md(pr, publicIssuer, nil))
+		for _, is := range []string{mi, publicIssuer} {
+			add("jwt_authenticator", "rule-level-issuers-with-metadata", "one-component", md(pr, is, nil),
+				md(pr, is, map[string]any{"assertions": map[string]any{"issuers": []string{publicIssuer}}}))
+		}
+	}
+	for _, is := range []string{mi, publicIssuer} {
+		add("jwt_authenticator", "other-prototype-issuers-with-metadata", "one-component", md("jw-md", is, nil), md("jw-md-pub", is, nil))
+	}
 	add("jwt_authenticator", "key-id", "one-component", mk("iss-one", "k1", u1, k["k1"]), mk("iss-one", "k2", u1, k["k2"]))
 	add("jwt_authenticator", "subject", "one-component", mk("iss-one", "k1", u1, k["k1"]), mk("iss-one", "k1", u2, k["k1"]))
 	add("jwt_authenticator", "issuer-same-kid", "one-component", mk("iss-one", "k1", u1, k["k1"]), mk("iss-two", "k1", u1, k["k1b"]))
